@@ -59,3 +59,64 @@ def simulate(configfile, outfile, gtis=None, du_id=1, seed=1, roi_model=None, **
             event_list += calib_event_list
     event_list.write_fits('verif', roi_model, irf_set, **kwargs)
     return outfile
+
+
+# ---------------------------------------------------------------------------------------------------------------------------------------
+# The whole application: the real `ixpeobssim.bin.xpobssim.xpobssim()` — argument parser, `_prepare_simulation`, `_build_timeline`,
+# `xObservationTimeline`, the calibration pattern, the loop over the detector units with its seeding, `write_fits` — with the orbit
+# propagator alone replaced: a trajectory whose SAA / occultation status is a given set of intervals (no JPL ephemeris needed).
+import contextlib
+
+
+def stub_trajectory(saa, occ):
+    """a subclass of the real xIXPETrajectory that answers `in_saa` / `target_occulted` from interval lists (absolute MET); the searches for
+    the transition times, the epochs and the GTIs are the real code"""
+    from ixpeobssim.instrument import traj
+
+    def inside(met, ivs):
+        met = numpy.asarray(met, dtype=float)
+        m = numpy.zeros(met.shape, dtype=bool)
+        for lo, hi in ivs:
+            m |= (met >= lo) & (met < hi)
+        return m
+
+    class Stub(traj.xIXPETrajectory):
+        def __init__(self, *a, **k):
+            pass
+
+        def __del__(self):
+            pass
+
+        def in_saa(self, met):
+            return inside(met, saa)
+
+        def target_occulted(self, met, *a, **k):
+            return inside(met, occ)
+    return Stub
+
+
+@contextlib.contextmanager
+def stubbed_orbit(saa, occ):
+    from ixpeobssim.instrument import traj
+    orig = traj.xIXPETrajectory
+    traj.xIXPETrajectory = stub_trajectory(saa, occ)
+    try:
+        yield
+    finally:
+        traj.xIXPETrajectory = orig
+
+
+def app_start_met(startdate):
+    from ixpeobssim.utils.time_ import string_to_met_utc
+    return string_to_met_utc(startdate, lazy=True)
+
+
+def app_run(configfile, outbase, startdate='2022-04-21', duration=1000., seed=1, saa=(), occ=(), overwrite=True, extra=()):
+    """run the real application; `saa`, `occ`: intervals in seconds from the start of the observation. Returns the list of output files."""
+    import io
+    from ixpeobssim.bin import xpobssim as app
+    t0 = app_start_met(startdate)
+    argv = ['--configfile', configfile, '--startdate', startdate, '--duration', repr(float(duration)), '--seed', str(int(seed)), '--outfile', outbase,
+            '--scdata', 'False', '--overwrite', str(bool(overwrite))] + [str(x) for x in extra]
+    with stubbed_orbit([(t0 + a, t0 + b) for a, b in saa], [(t0 + a, t0 + b) for a, b in occ]), contextlib.redirect_stdout(io.StringIO()):
+        return app.xpobssim(**app.PARSER.parse_args(argv).__dict__)
